@@ -139,6 +139,19 @@ def register(M):
     @reg('future::pending')
     def _(ex, info, a, dty):
         return Obj('future', what=('pending',), pending=INF, value=UNIT, on_ready=None)
+    M.pending_future = lambda: Obj('future', what=('pending',), pending=INF, value=UNIT, on_ready=None)
+
+    @reg('FutureExt::left_future', 'FutureExt::right_future', 'FutureExt::boxed', 'FutureExt::boxed_local', 'FutureExt::fuse')
+    def _(ex, info, a, dty):
+        return a[0]           # Either<A, B> / Box / Fuse as a future: polls the wrapped future, same output
+
+    @reg('future::poll_fn')
+    def _(ex, info, a, dty):
+        return Obj('poll_fn', f=Cell(a[0], name='poll_fn closure'))
+
+    @reg('future::select')
+    def _(ex, info, a, dty):
+        return Obj('select2', a=Cell(a[0]), b=Cell(a[1]))
 
     @reg('future::ready')
     def _(ex, info, a, dty):
@@ -178,6 +191,19 @@ def register(M):
                 v = v.set(second=Cell(ex.call_value(v.f, [out])))
                 ex.write_path(cell, path, v)
             return M.poll_cell(ex, v.second, a[1], dty)
+        if isinstance(v, Obj) and v.kind == 'poll_fn':
+            return ex.call_value(Ref(v.f, ()), [a[1]])
+        if isinstance(v, Obj) and v.kind == 'select2':
+            # futures::future::select: polls A, then B; the loser is handed back next to the winner's output
+            r = ex.materialize(M.poll_cell(ex, v.a, a[1], 'Poll<?>'))
+            if ex.branch(M.discr(ex, r) == bv(0)):
+                tup = Adt('(A::Output, B)', {(None, 0): ex.field_of(r, 0, 0, '?'), (None, 1): v.b.v})
+                return M.poll_ready(dty, Adt('Either<(A::Output, B), (B::Output, A)>', {(0, 0): tup}, 0))
+            r = ex.materialize(M.poll_cell(ex, v.b, a[1], 'Poll<?>'))
+            if ex.branch(M.discr(ex, r) == bv(0)):
+                tup = Adt('(B::Output, A)', {(None, 0): ex.field_of(r, 0, 0, '?'), (None, 1): v.a.v})
+                return M.poll_ready(dty, Adt('Either<(A::Output, B), (B::Output, A)>', {(1, 0): tup}, 1))
+            return M.poll_pending(dty)
         if isinstance(v, Obj) and v.kind == 'oneshot_rx':
             st = v.ch.v
             if st.fired:
